@@ -19,8 +19,21 @@ GOOD1 = ["S\tA\t*", "S\tB\tACGT", "H\tVN:Z:1.0"]
 GOOD2 = ["S\tA\t10\t*", "S\tB\t4\tACGT", "H\tVN:Z:2.0", "E\te\tA+\tB-\t0\t1\t0\t1\t*"]
 
 
+HEADER_START = [["H\txx:i:1"], ["H\txx:i:1", "H\txx:i:2"], ["H\tzz:Z:a\tTS:i:5"], ["H\tVN:Z:1.0"], [],
+                ["H\tjj:J:[1]"], ["H\tff:f:1.5", "H\tff:f:2.5"]]
+HEADER_ADDS = [("xx", 3, None), ("xx", "a", "Z"), ("xx", "a", None), ("xx", 1.5, "f"), ("xx", 7, "i"), ("zz", "b", None),
+               ("zz", 5, "i"), ("TS", 6, None), ("TS", 5, None), ("VN", "2.0", None), ("VN", "1.0", None), ("jj", [2], "J"),
+               ("jj", "x", "Z"), ("ff", 3.5, None), ("ff", "q", "Z"), ("nw", 1, None), ("nw", "a\tb", None),
+               ("x", 1, None), ("xx", None, None), ("ff", float("inf"), None)]
+
+
 def cases(rng, tier, shard, nshards):
     while True:
+        if rng.random() < 0.06:
+            # values added to the header through its own API (multi-valued tags)
+            yield {"k": "header-add", "start": rng.choice(HEADER_START), "vlevel": rng.randrange(4),
+                   "adds": [rng.randrange(len(HEADER_ADDS)) for _ in range(rng.randint(1, 5))]}
+            continue
         if rng.random() < 0.25:
             seq = []
             for _ in range(rng.randint(2, 8)):
@@ -32,7 +45,7 @@ def cases(rng, tier, shard, nshards):
                 else:
                     seq.append(rng.choice(GOOD1 + GOOD2))
             seq = list(dict.fromkeys(seq))
-            yield {"k": "unknown-version", "lines": seq, "vlevel": rng.choice([1, 1, 2, 3])}
+            yield {"k": "unknown-version", "lines": seq, "vlevel": rng.choice([1, 1, 2, 3, 0])}
             continue
         c = H.gen_history(rng, nsteps=rng.randint(4, 16 if tier == "quick" else 40), failing=0.55,
                           fanout=rng.random() < 0.5, tags=rng.random() < 0.3)
@@ -106,9 +119,42 @@ def run_unknown_version(case, ctx):
     ctx.sample(case)
 
 
+def run_header_add(case, ctx):
+    import gfapy
+    from ..mon import obs as O
+    from ..mon.client import call
+    r = call(ctx, "Gfa(list)", gfapy.Gfa, list(case["start"]), vlevel=case["vlevel"])
+    if not r.ok:
+        return
+    g = r.value
+    nfail = 0
+    for i in case["adds"]:
+        tag, value, dt = HEADER_ADDS[i]
+        before = O.obs(g)
+        rr = call(ctx, "header.add", lambda: g.header.add(tag, value, dt) if dt else g.header.add(tag, value))
+        ctx.count("steps")
+        ctx.count("header_add_calls")
+        if rr.ok:
+            continue
+        nfail += 1
+        ctx.count("failing_calls")
+        ctx.add("failure_classes", "header-add/%s/%s" % (tag, rr.cls()))
+        after = O.obs(g)
+        if after != before:
+            d = O.diff_obs(before, after)
+            ctx.violation("state-changed-by-failed-call/header-add/%s" % H._what_changed(d),
+                          "header.add(%r, %r, %r) at level %d on %r raised %s but the Gfa changed:\n  %s"
+                          % (tag, value, dt, case["vlevel"], case["start"], rr.cls(), "\n  ".join(d[:4])))
+            return
+    if nfail:
+        ctx.nontriv([case["start"], case["adds"], case["vlevel"]])
+
+
 def run(case, ctx):
     if case.get("k") == "unknown-version":
         return run_unknown_version(case, ctx)
+    if case.get("k") == "header-add":
+        return run_header_add(case, ctx)
     shape = H.run_history(case, ctx, compare_every=False)
     fails = [s for s in shape if s.startswith("F:")]
     if fails:
